@@ -49,6 +49,56 @@ var (
 	}
 )
 
+// isValidNumber reports whether b is a JSON number literal (RFC 8259 section 6):
+// -? (0 | [1-9][0-9]*) (\.[0-9]+)? ([eE][+-]?[0-9]+)?
+// strconv.ParseFloat alone also accepts "01", "1.", "-.5" and "1.e5".
+func isValidNumber(b []byte) bool {
+	i, n := 0, len(b)
+	if i < n && b[i] == '-' {
+		i++
+	}
+	switch {
+	case i == n:
+		return false
+	case b[i] == '0':
+		i++
+	case '1' <= b[i] && b[i] <= '9':
+		for i < n && numTable[b[i]] {
+			i++
+		}
+	default:
+		return false
+	}
+	if i < n && b[i] == '.' {
+		i++
+		if i == n || !numTable[b[i]] {
+			return false
+		}
+		for i < n && numTable[b[i]] {
+			i++
+		}
+	}
+	if i < n && (b[i] == 'e' || b[i] == 'E') {
+		i++
+		if i < n && (b[i] == '+' || b[i] == '-') {
+			i++
+		}
+		if i == n || !numTable[b[i]] {
+			return false
+		}
+		for i < n && numTable[b[i]] {
+			i++
+		}
+	}
+	return i == n
+}
+
+func errInvalidNumber(b []byte, offset int64) error {
+	// same text as the strconv.ParseFloat failure reported for other malformed numbers
+	e := &strconv.NumError{Func: "ParseFloat", Num: string(b), Err: strconv.ErrSyntax}
+	return errors.ErrSyntax(e.Error(), offset)
+}
+
 func floatBytes(s *Stream) []byte {
 	start := s.cursor
 	for {
@@ -126,6 +176,9 @@ func (d *floatDecoder) DecodeStream(s *Stream, depth int64, p unsafe.Pointer) er
 	if bytes == nil {
 		return nil
 	}
+	if !isValidNumber(bytes) {
+		return errInvalidNumber(bytes, s.totalOffset())
+	}
 	str := *(*string)(unsafe.Pointer(&bytes))
 	f64, err := strconv.ParseFloat(str, 64)
 	if err != nil {
@@ -147,6 +200,9 @@ func (d *floatDecoder) Decode(ctx *RuntimeContext, cursor, depth int64, p unsafe
 	cursor = c
 	if !validEndNumberChar[buf[cursor]] {
 		return 0, errors.ErrUnexpectedEndOfJSON("float", cursor)
+	}
+	if !isValidNumber(bytes) {
+		return 0, errInvalidNumber(bytes, cursor)
 	}
 	s := *(*string)(unsafe.Pointer(&bytes))
 	f64, err := strconv.ParseFloat(s, 64)
